@@ -8,6 +8,9 @@ import re
 
 ANTI_REORG_DELAY = 6
 M = 1000000
+# keys of recorded findings (known_findings.json)
+F1 = "F1-stale-manager-refails-forwarded-htlc"
+F2 = "F2-debug-assert-FreeDuplicateClaimImmediately-in-serialized-queue"
 
 
 def parse(path):
@@ -82,6 +85,9 @@ def judge(recs):
     dfail = 0         # 0 none, 1 fail received, 2 + C's cs received, 3 + C received B's cs, 4 + C's raa received (irrevocable)
     fees_b = 0
     closed_b = set()
+    c_got_add = False       # C received B's update_add_htlc ...
+    c_committed = False     # ... and a commitment_signed covering it: C holds a commitment with the HTLC
+    stale_refail = {"reload": False, "outdated": False, "invalid_forward": False}
     params = {}
     end = None
     for (ln, step, kind, kv) in recs:
@@ -96,7 +102,8 @@ def judge(recs):
         elif kind == "PAY":
             h = kv["hash"]
         elif kind == "PANIC":
-            V.append({"judge": "harness/implementation panic", "why": kv.get("msg", "?")[:400], "step": step})
+            msg = kv.get("msg", "?")
+            V.append({"key": F2 if "Non-event-generating_channel_freeing" in msg else "panic", "judge": "harness/implementation panic", "why": msg[:400], "step": step})
         elif kind == "RELOADFAIL":
             V.append({"judge": "restart", "why": "B could not restart from its durable state: %s %s" % (kv.get("what"), kv.get("err", "")), "step": step})
         elif kind == "STUCK":
@@ -136,6 +143,7 @@ def judge(recs):
                     s.complete = True
         elif kind == "RELOAD":
             F["reloads"] += 1
+            stale_refail["reload"] = True
             if fulfil_recv:
                 F["reload_after_fulfil"] += 1
             if u_pre_pending is not None:
@@ -212,6 +220,10 @@ def judge(recs):
                     F["blocker_exercised"] = 1
             if kind == "RECV" and link == "BC" and ty == "cs" and dfail == 2:
                 dfail = 3
+            if kind == "RECV" and link == "BC" and ty == "add" and kv.get("hash") == h:
+                c_got_add = True
+            if kind == "RECV" and link == "BC" and ty == "cs" and c_got_add:
+                c_committed = True
             if kind in ("SEND", "DROP") and link == "BA" and ty == "fulfill":
                 F["fulfil_upstream"] = 1
             if kind in ("SEND", "DROP") and link == "BA" and ty in ("fail", "malformed"):
@@ -221,6 +233,8 @@ def judge(recs):
                 ok = None
                 if not out_adds:
                     ok = "never offered downstream"
+                elif not c_committed:
+                    ok = "C never received a commitment carrying the HTLC"
                 elif dfail == 4:
                     ok = "downstream failure irrevocable (C's revoke_and_ack received)"
                 else:
@@ -230,12 +244,17 @@ def judge(recs):
                     else:
                         ok = onchain_timeout_safe(funding.get("D"), txs, confirmed, out_adds[-1], height)
                 if ok is None:
-                    V.append({"judge": "d:fail-only-when-safe",
+                    f1 = all(stale_refail.values()) and dfail < 4
+                    V.append({"key": F1 if f1 else "d:fail-only-when-safe", "judge": "d:fail-only-when-safe",
                               "why": "B fails the HTLC back to A at height %d while the downstream HTLC (amt %d, expiry %d) is neither irrevocably failed by C nor timed out on chain %d blocks deep (downstream fail progress %d/4)" % (height, out_adds[-1][0], out_adds[-1][1], ANTI_REORG_DELAY, dfail),
                               "step": step})
         elif kind == "EVENT":
             if kv.get("node") == "B" and kv.get("name") == "ChannelClosed":
                 closed_b.add(kv.get("chan"))
+                if kv.get("chan") == "D" and kv.get("reason") == "OutdatedChannelManager":
+                    stale_refail["outdated"] = True
+            if kv.get("node") == "B" and kv.get("name") == "HTLCHandlingFailed" and kv.get("type") == "InvalidForward" and stale_refail["outdated"]:
+                stale_refail["invalid_forward"] = True
             if kv.get("node") == "B" and kv.get("name") == "PaymentForwarded" and kv.get("onchain") == "true":
                 F["learned_onchain"] = 1
         elif kind == "END":
@@ -253,13 +272,16 @@ def judge(recs):
             if "D" in cfg and in_add[0] > cfg["D"][3]:
                 V.append({"judge": "e:dust-exposure", "why": "a dust HTLC of %d msat was accepted above max_dust_htlc_exposure %d" % (in_add[0], cfg["D"][3]), "step": 0})
         if total + tol + dust_tol < bal0:
-            V.append({"judge": "e:ledger/c:claim-whenever-known",
+            f1 = any(v.get("key") == F1 for v in V)
+            V.append({"key": F1 if f1 else "e:ledger", "judge": "e:ledger/c:claim-whenever-known",
                       "why": "B's claimable balances after full resolution (%d sat in channels + %d sat swept + %d sat own HTLC-transaction fees) are below the %d sat before the forward by %d sat (tolerance %d rounding + %d dust)%s" % (
                           int(end["bal"]), int(end["swept"]), fees_b, bal0, bal0 - total, tol, dust_tol,
                           "; B had learned the preimage from C" if (fulfil_recv or F["learned_onchain"]) else ""),
                       "step": 0, "detail": end.get("detail", "")})
     elif end is None and not any(v["judge"].startswith("harness") for v in V):
         V.append({"judge": "harness", "why": "scenario produced no END record", "step": 0})
+    for v in V:
+        v.setdefault("key", v["judge"])
     return V, F
 
 
